@@ -33,6 +33,12 @@ func genC11(seed uint64, run int, tier string) Scenario {
 			}
 		}
 		sc.Sub = "C12"
+		if r.IntN(4) == 0 {
+			// sched-hold fault: the dialogue's goroutine is descheduled in front of the write
+			// of the secret for longer than the operation's timeout (the caller sits it out with it)
+			sc.Holds = append(sc.Holds, HoldSpec{Base: "op.sendinteractive", Point: "tr.write.marked", DurNS: int64(Micro(sc.TimeoutOpsUS)) * 13 / 10, Pct: 50})
+			sc.MarkSecret = true
+		}
 		// half of them escalate inside the on-open hook, as platform definitions do
 		sc.OnOpenAcquire = r.IntN(2) == 0
 		if r.IntN(3) == 0 {
@@ -73,6 +79,7 @@ func runC11(env *Env, s Scenario) {
 	} else {
 		runC12(env, sc)
 	}
+	env.Fault("sched-hold", env.K.Holds)
 	// this check owns only the secret clauses; everything else belongs to C10 / C12
 	kept := env.Res.Violations[:0]
 	for _, v := range env.Res.Violations {
